@@ -1,8 +1,10 @@
 SPECIFICATION Spec
 CONSTANTS
   Versions <- VersionsAll
+  FullVersions <- VersionsAll
   Family = "pdu"
   FullOffsets <- OffAll
   LiteOffsets <- OffNone
+  AllOnlyOffsets <- OffNone
 INVARIANTS TypeOK PExact PIdempotent PCore PIdentity PModule PSanity Emit
 CHECK_DEADLOCK FALSE
